@@ -64,6 +64,7 @@ class Ob:
     std_checks: bool = True      # False => --no-standard-checks (concurrency harnesses)
     object_bits: int = 0
     replay_tus: tuple = ()       # TUs for native replay (default: tus)
+    unwind_goal: tuple = ()      # unwinding assertions (name substrings) that ARE the property: the loop must stay within its bound
     note: str = ''
 
 
@@ -173,6 +174,29 @@ class Ctx:
             return names
         return self._once(('fn', tu), listf)
 
+    def loop_id(self, tu, func, pattern):
+        """CBMC loop identifier (func.N) of the loop in <func> whose source line matches <pattern> in the CURRENT source"""
+        def find():
+            base = self.goto_tu(tu)
+            rc, o, e, _ = sh(['goto-instrument', '--show-loops', base], timeout=120)
+            src = open(os.path.join(SRC, tu + '.c')).read().splitlines()
+            for m in re.finditer(r'Loop (\S+):\s+file \S+ line (\d+) function (\S+)', o):
+                lid, line, fn = m.group(1), int(m.group(2)), m.group(3)
+                if fn == func and 0 < line <= len(src) and re.search(pattern, src[line - 1]): return lid
+            return None
+        return self._once(('loop', tu, func, pattern), find)
+
+    def resolve_unwindset(self, ob):
+        out = []
+        for u in ob.unwindset:
+            if u.startswith('@'):
+                tu, func, pattern, bound = u[1:].split('|')
+                lid = self.loop_id(tu, func, pattern)
+                if lid is None: raise BuildError(f'loop matching /{pattern}/ not found in {func} ({tu}.c)')
+                out.append(f'{lid}:{bound}')
+            else: out.append(u)
+        return out
+
     def goto_c(self, path, defs=None, tag=''):
         """goto object of a harness/stub C file"""
         defs = defs or {}
@@ -250,9 +274,9 @@ class BuildError(Exception):
 
 
 # -------------------------------------------------------------------------------- CBMC (E-BITS)
-def cbmc_cmd(gb, ob, extra=()):
+def cbmc_cmd(gb, ob, extra=(), ctx=None):
     cmd = ['cbmc', gb, '--function', 'harness', '--unwind', str(ob.unwind)]
-    if ob.unwindset: cmd += ['--unwindset', ','.join(ob.unwindset)]
+    if ob.unwindset: cmd += ['--unwindset', ','.join(ctx.resolve_unwindset(ob) if ctx else ob.unwindset)]
     cmd += [f for f in CBMC_BASE]
     if not ob.std_checks:
         cmd = [c for c in cmd if c not in ('--pointer-overflow-check', '--signed-overflow-check', '--undefined-shift-check')]
@@ -299,7 +323,10 @@ def classify(ob, name, desc):
     if 'LSV_WITNESS' in desc: return 'witness'
     for ig in ob.ignore_props:
         if ig in name or ig in desc: return 'ignored'
-    if '.unwind.' in name or 'unwinding assertion' in desc: return 'unwind'
+    if '.unwind.' in name or 'unwinding assertion' in desc:
+        for g in ob.unwind_goal:
+            if g in name: return 'goal'
+        return 'unwind'
     return 'goal'
 
 
@@ -309,7 +336,8 @@ def run_bits(ctx, ob, extra_defs=None):
         gb = ctx.link(ob, extra_defs)
     except BuildError as x:
         return Res(ob, 'error', detail=str(x), secs=time.time() - t0)
-    cmd = cbmc_cmd(gb, ob, ['--json-ui', '--verbosity', '4'])
+    try: cmd = cbmc_cmd(gb, ob, ['--json-ui', '--verbosity', '4'], ctx)
+    except BuildError as x: return Res(ob, 'error', detail=str(x), secs=time.time() - t0)
     rc, out, err, secs = sh(['/usr/bin/time', '-f', 'LSVRSS %M'] + cmd, timeout=ob.timeout, mem_gb=float(os.environ.get('LSV_MEM_GB', '12')))
     rss = 0
     m = re.search(r'LSVRSS (\d+)', err)
@@ -346,7 +374,7 @@ def run_bits(ctx, ob, extra_defs=None):
         res.status = 'violated'
         res.detail = '; '.join(f'{d} @{l}' for _, d, l in failing[:4])
         # second run for the first failing assertion WITHOUT formula slicing so that the trace carries every input
-        cmd2 = [c for c in cbmc_cmd(gb, ob, ['--json-ui', '--verbosity', '4', '--trace', '--property', failing[0][0]]) if c != '--slice-formula']
+        cmd2 = [c for c in cbmc_cmd(gb, ob, ['--json-ui', '--verbosity', '4', '--trace', '--property', failing[0][0]], ctx) if c != '--slice-formula']
         rc2, out2, err2, secs2 = sh(cmd2, timeout=max(ob.timeout, 120), mem_gb=float(os.environ.get('LSV_MEM_GB', '12')))
         res.solver_secs += secs2
         r2, _, _ = parse_cbmc_json(out2) if rc2 != -9 else (None, None, None)
